@@ -41,22 +41,35 @@ CurveLists == << <<>>, <<23>>, <<29>>, <<24, 23>>, <<>>, <<25, 29>> >>
 Keys == IF Tier = "quick" THEN <<"R", "P", "E">> ELSE <<"R", "P", "E", "Q">>
 NL == IF Tier = "quick" THEN 4 ELSE 8
 
-Mk24(ci, si, cl, sl, k, p, down) ==
+Mk24x(ci, si, cl, sl, k, p, down, au, cert, tc, ts, tw) ==
   LET h == ci * 3 + si * 5 + cl * 7 + sl * 11 + k * 13 + (IF p THEN 17 ELSE 0) + down * 19 + Seed
       cc == [min |-> Ranges[ci][1], max |-> Ranges[ci][2], suites |-> CLists[cl],
              alpn |-> Pick(AlpnLists, h), curves |-> Pick(CurveLists, h \div 5),
-             tickets |-> (h \div 2) % 4 # 0,
+             tickets |-> IF tc = 2 THEN (h \div 2) % 4 # 0 ELSE tc = 1,
              \* DHE suites are only offered with ForceSuites; force them often for that list
              force |-> IF cl \in {4, 7} THEN h % 3 # 0 ELSE h % 7 = 0,
              prefer |-> FALSE, key |-> "", auth |-> 0]
       sc == [min |-> Ranges[si][1], max |-> Ranges[si][2], suites |-> SLists[sl],
              alpn |-> Pick(AlpnLists, h \div 3), curves |-> Pick(CurveLists, h \div 7),
-             tickets |-> (h \div 3) % 4 # 0, force |-> FALSE,
-             prefer |-> p, key |-> Keys[k], auth |-> 0]
+             tickets |-> IF ts = 2 THEN (h \div 3) % 4 # 0 ELSE ts = 1, force |-> FALSE,
+             prefer |-> p, key |-> Keys[k], auth |-> au]
       n == Negotiate(cc, sc, down)
-  IN [id |-> 0, c |-> cc, s |-> sc, down |-> down, two |-> down = 0 /\ h % 2 = 0,
+  IN [id |-> 0, c |-> cc, s |-> sc, down |-> down, two |-> down = 0 /\ (tw \/ h % 2 = 0), ccert |-> cert,
       exp |-> [vers |-> n.vers, suites |-> SetToSeq(n.suites), alpn |-> SetToSeq(n.alpn),
                canary |-> n.canary, abort |-> n.abort, mode |-> n.mode]]
+
+\* the default rotation: every third case requests / requires a client certificate
+Mk24(ci, si, cl, sl, k, p, down) ==
+  LET g == ci * 5 + si * 3 + cl + sl * 7 + k + down + Seed IN
+  Mk24x(ci, si, cl, sl, k, p, down, IF down = 0 /\ g % 3 = 0 THEN (g \div 3) % 5 ELSE 0, (g \div 2) % 2 = 0, 2, 2, FALSE)
+
+\* client authentication as a dimension of its own: every version (pinned) x key type x
+\* ClientAuthType x client has / has no certificate x tickets on / off on both sides, each pair
+\* followed by a resumption attempt
+Pinned(v) == CHOOSE i \in 1..Len(Ranges) : Ranges[i] = <<v, v>>
+Auth24 ==
+  { Mk24x(Pinned(v), Pinned(v), 1, 1, k, FALSE, 0, au, cert, tk, tk, TRUE) :
+      v \in Versions, k \in 1..Len(Keys), au \in 0..4, cert \in BOOLEAN, tk \in {0, 1} }
 
 Honest24 ==
   UNION { { Mk24(ci, si, cl, sl, k, p, 0) :
@@ -72,7 +85,7 @@ Down24 ==
 
 Number(set) == LET q == SetToSeq(set) IN [i \in 1..Len(q) |-> [q[i] EXCEPT !.id = i]]
 
-Cases24 == Number(Honest24 \cup Down24)
+Cases24 == Number(Honest24 \cup Down24 \cup Auth24)
 
 ASSUME Gen = "C24" =>
          /\ ndJsonSerialize("c24_cases.ndjson", Cases24)
@@ -151,6 +164,8 @@ Combos27 ==
         { <<10, 10, "R">>, <<10, 49162, "Q">>, <<11, 5, "R">>, <<12, 52393, "Q">>, <<12, 49191, "R">>,
           <<12, 52394, "R">>, <<12, 61, "R">>, <<13, 0, "Q">> })
 SScens27 == {"Trusted", "UntrustedRoot", "Expired", "NotYetValid", "WrongName", "WrongKey", "BadLeafSig",
+             "NameIP4Listed", "NameIP4Unlisted", "NameIP6BracketListed", "NameIP6BracketUnlisted",
+             "NameIP6ZoneListed", "NameDNSTrailingDot",
              "CorruptSKXSig", "CorruptSKXParams", "CorruptServerFinished", "CorruptClientFinished"}
 CScens27 == {"NoClientCert", "ClientTrusted", "ClientUntrusted", "ClientExpired", "ClientWrongKey",
              "ClientServerEKU", "CorruptClientCV"}
@@ -231,4 +246,21 @@ Cases32 == Number(
 ASSUME Gen = "C32" =>
          /\ ndJsonSerialize("c32_cases.ndjson", Cases32)
          /\ PrintT(<<"GENERATED", Len(Cases32), Cardinality({i \in 1..Len(Cases32) : Cases32[i].kind = "stream"})>>)
+
+-----------------------------------------------------------------------------
+(* C27 histories: every sequence of 2 (thorough: also 3) steps over
+   {InsecureSkipVerify} x {trusted chain A, untrusted chain B} x {configured name = certificate name,
+   other name} x {now, after the leaves expired}, for TLS 1.2 and 1.3 (ticket / PSK resumption). *)
+Steps27 == { [skip |-> sk, scert |-> c, name |-> n, time |-> t] :
+               sk \in BOOLEAN, c \in {"A", "B"}, n \in {"dns", "other"}, t \in {"now", "late"} }
+Hist27(n) == IF n = 2 THEN { <<a, b>> : a \in Steps27, b \in Steps27 }
+             ELSE { <<a, b, c>> : a \in Steps27, b \in Steps27, c \in {x \in Steps27 : x.name = "dns"} }
+Cases27H == Number(
+  { [id |-> 0, vers |-> v, key |-> "P", steps |-> h,
+     exp |-> [i \in 1..Len(h) |-> [presented_ok |-> PresentedExpected(h[i]), verifying |-> ~h[i].skip]]] :
+      v \in {12, 13}, h \in Hist27(2) \cup (IF Tier = "quick" THEN {} ELSE Hist27(3)) } )
+ASSUME Gen = "C27H" =>
+         /\ ndJsonSerialize("c27h_cases.ndjson", Cases27H)
+         /\ PrintT(<<"GENERATED", Len(Cases27H),
+                     Cardinality({i \in 1..Len(Cases27H) : Cases27H[i].steps[1].skip /\ ~Cases27H[i].steps[2].skip})>>)
 =============================================================================
